@@ -29,7 +29,7 @@ class C15(PropBase):
 
     def random_cases(self, rnd, n):
         for _ in range(n):
-            c = graph_case(rnd)
+            c = graph_case(rnd, long_timeline=(self.id == 'C15'))
             if self.id == 'C12' and c['family'] == 'us':
                 c['family'] = 'str'      # C12 is quantified over integer or '_'-free string node ids only
             # occurrence names: arbitrary text ids (underscores, digits, signs, blanks, empty), any instant
